@@ -45,6 +45,9 @@ type vfC11World struct {
 	Rfn       []int    `json:"rfn"`
 	// a second keyspace ("vfks2") with its own replication, "none" if there is none: statements on its
 	// tables get their keyspace from the prepared-statement information, not from the session
+	// Addr: address index per host; hosts with the same index share one address (a node replaced at the
+	// same address has another host id and other tokens)
+	Addr   []int    `json:"addr"`
 	Strat2 string   `json:"strat2"`
 	Rfdc2  []string `json:"rfdc2"`
 	Rfn2   []int    `json:"rfn2"`
@@ -144,6 +147,11 @@ func vfC11New(w *vfC11World) *vfC11Env {
 	e := &vfC11Env{w: w}
 	c := &vfC10Case{Ring: w.Ring, Dc: w.Dc, Rack: w.Rack, Tokens: w.Tokens, Strat: w.Strat, RfDc: w.Rfdc, RfN: w.Rfn, Form: "str"}
 	e.hosts = vfC10Hosts(c, "OrderedPartitioner")
+	for i, a := range w.Addr {
+		if i < len(e.hosts) && a >= 1 && a != i+1 {
+			e.hosts[i].connectAddress = e.hosts[a-1].connectAddress
+		}
+	}
 	e.idx = make(map[*HostInfo]int, len(e.hosts))
 	for i, h := range e.hosts {
 		e.idx[h] = i + 1
@@ -413,6 +421,12 @@ func vfC11Run(c *vfC11Case) (v vfC11Vector) {
 	if c.W.Rfn2 == nil {
 		c.W.Rfn2 = []int{}
 	}
+	if len(c.W.Addr) != len(c.W.Dc) {
+		c.W.Addr = make([]int, len(c.W.Dc))
+		for i := range c.W.Addr {
+			c.W.Addr[i] = i + 1
+		}
+	}
 	v.W = c.W
 	e := vfC11New(&c.W)
 	for i := 0; i < len(c.Hist); i++ {
@@ -666,6 +680,9 @@ func vfC11RandomWorld(rnd *rand.Rand, maxHosts, maxVnodes int) vfC11World {
 	ks := vfC11Keyspaces[rnd.Intn(len(vfC11Keyspaces))]
 	w.Strat, w.Rfdc, w.Rfn = ks.strat, ks.dcs, ks.rfs
 	w.Strat2, w.Rfdc2, w.Rfn2 = "none", []string{}, []int{}
+	for i := range w.Dc {
+		w.Addr = append(w.Addr, i+1)
+	}
 	return w
 }
 
@@ -692,6 +709,9 @@ func TestVfC11Random(t *testing.T) {
 		hists++
 		w := vfC11RandomWorld(rnd, 6, 3)
 		n := len(w.Dc)
+		if n >= 2 && rnd.Intn(6) == 0 {
+			w.Addr[n-1] = 1 // the last host is a replacement of host 1 at the same address
+		}
 		var hist []vfC11Op
 		// most histories start like a session does; some start from nothing
 		if rnd.Intn(4) != 0 {
@@ -713,6 +733,10 @@ func TestVfC11Random(t *testing.T) {
 				op := vfC11Op{ops[rnd.Intn(len(ops))], 1 + rnd.Intn(n)}
 				if op.Op == "setpart" || op.Op == "ks" {
 					op.H = 0
+				} else if w.Addr[n-1] != n && (op.H == 1 || op.H == n) && op.Op != "add" && op.Op != "remove" {
+					// a replaced node and its replacement are announced and removed, not reported up / down
+					// (the token aware layer and its fallback would otherwise disagree about who is at the address)
+					op.Op = []string{"add", "remove"}[rnd.Intn(2)]
 				}
 				hist = append(hist, op)
 				continue
